@@ -1797,6 +1797,11 @@ namespace detail {
 
                 std::error_code ec2;
                 Json key1 = expr.evaluate(arg0.at(0), context, ec2); 
+                if (ec2)
+                {
+                    ec = ec2;
+                    return context.null_value();
+                }
 
                 bool is_number = key1.is_number();
                 bool is_string = key1.is_string();
@@ -1810,6 +1815,11 @@ namespace detail {
                 for (std::size_t i = 1; i < arg0.size(); ++i)
                 {
                     reference key2 = expr.evaluate(arg0.at(i), context, ec2); 
+                    if (ec2)
+                    {
+                        ec = ec2;
+                        return context.null_value();
+                    }
                     if (!(key2.is_number() == is_number && key2.is_string() == is_string))
                     {
                         ec = jmespath_errc::invalid_type;
@@ -1957,6 +1967,11 @@ namespace detail {
 
                 std::error_code ec2;
                 Json key1 = expr.evaluate(arg0.at(0), context, ec2); 
+                if (ec2)
+                {
+                    ec = ec2;
+                    return context.null_value();
+                }
 
                 bool is_number = key1.is_number();
                 bool is_string = key1.is_string();
@@ -1970,6 +1985,11 @@ namespace detail {
                 for (std::size_t i = 1; i < arg0.size(); ++i)
                 {
                     reference key2 = expr.evaluate(arg0.at(i), context, ec2); 
+                    if (ec2)
+                    {
+                        ec = ec2;
+                        return context.null_value();
+                    }
                     if (!(key2.is_number() == is_number && key2.is_string() == is_string))
                     {
                         ec = jmespath_errc::invalid_type;
@@ -2191,7 +2211,12 @@ namespace detail {
                 {
                     std::error_code ec1;
                     reference key = expr.evaluate(arg0.at(0), context, ec1);
-                    if (!ec1 && !(key.is_number() || key.is_string()))
+                    if (ec1)
+                    {
+                        ec = ec1;
+                        return context.null_value();
+                    }
+                    if (!(key.is_number() || key.is_string()))
                     {
                         ec = jmespath_errc::invalid_type;
                         return context.null_value();
@@ -2211,15 +2236,23 @@ namespace detail {
                 {
                     std::error_code ec2;
                     reference key1 = expr.evaluate(lhs, context, ec2);
+                    if (ec2 && !ec)
+                    {
+                        ec = ec2;
+                    }
                     bool is_number = key1.is_number();
                     bool is_string = key1.is_string();
-                    if (!(is_number || is_string))
+                    if (!ec && !(is_number || is_string))
                     {
                         ec = jmespath_errc::invalid_type;
                     }
 
                     reference key2 = expr.evaluate(rhs, context, ec2);
-                    if (!(key2.is_number() == is_number && key2.is_string() == is_string))
+                    if (ec2 && !ec)
+                    {
+                        ec = ec2;
+                    }
+                    if (!ec && !(key2.is_number() == is_number && key2.is_string() == is_string))
                     {
                         ec = jmespath_errc::invalid_type;
                     }
